@@ -13,6 +13,8 @@ CLAIMS = {
          "NOT decided: RA/RS (marshal emits no ICMPv6 header: observed, see DESIGN 11.2), sendDHCP4Packet and the dns_naming senders (mDNS/LLMNR/NBNS/SSDP), the ICMPv6 checksum value; histories: each send function is decided for all arguments, not the handlers' emission histories"),
  "C08": ("no panic and a termination measure for every loop: Parse (through C01), the lemmas stating what Parse establishes per payload class, and on exactly those predicates arp_spoofer.ProcessPacket, icmp_spoofer Handler4/Handler6.ProcessPacket (incl. NDP option parsing and router table update); payload-level decoders decodeName (recursion measure), DecodeQuestion, decodeRRs, DecodeAnswers, newParseOptions, hop-by-hop headers, DHCP4.ParseOptions, LLDP TLVs for arbitrary byte strings",
          "NOT covered: dhcp4_spoofer.ProcessPacket beyond its gate and the dns_naming processors (their loops are driven by x/net dnsmessage.Parser, for which no typestate contract was written); wall-clock bounds are not a contract notion: termination = a decreasing measure per loop and recursion"),
+ "C10": ("escape obligations (vBorrowed): with the packet buffer declared on loan, every store of a byte-slice or string value into a heap object, package-level variable, map entry or slice element (including appended elements) performed by the code under verification is an obligation 'this is not a view of the borrowed buffer'; a borrowed view may only be passed to callees whose contracts declare the parameter borrowed or whose proved frame is byte ranges / the wire only. Decided for Session.Parse (steady-state path and everything up to the host lookup), IP4.IsValid, the fast path of findOrCreateHostWithLock, MACTable.findOrCreate (the retained MAC is a private copy: fresh region), Session.DHCPv4IPOffer, arp_spoofer.ProcessPacket and icmp_spoofer Handler4.ProcessPacket",
+         "NOT decided: the creation path of findOrCreateHostWithLock beyond MACTable.findOrCreate (TRUSTED case), Handler6.ProcessPacket's router-advertisement learning (six stores of option values stay open without loop invariants about the collected views; the code copies with CopyMAC/CopyIP, no defect was found), the DHCP and DNS handlers (names, leases); results of abstracted external functions are assumed to be nil, new memory or memory reachable from their arguments; 'identical to a run with fresh buffers' is reduced to 'no retained value is a view of the buffer'"),
  "C13": ("ProcessPacket: at most one frame, a reply, forged only for a hunt-list sender asking for the router; StartHunt rejects/idempotent/frames other entries, StopHunt removes; spoofLoop: every forged frame goes to a MAC in the hunt list at the moment of the send, the corrective request with the router's real MAC is sent when the target is no longer hunted, nothing is sent after Close",
          "sequential semantics only: 'within one cycle', interleavings of StartHunt/StopHunt with the running goroutine and real time are schedule properties no contract here can state (mutexes are no-ops, go statements are not executed); probe-reject conditions are covered only as 'a reply to the requester'"),
  "C14": ("Handler6.StartHunt rejects IPv4, ignores non link-local targets, is idempotent per MAC (no second loop, list unchanged) and sends nothing itself; StopHunt removes the entry; the NA spoof loop: every frame it sends is a neighbour advertisement with the override flag, hop limit 255, the host NIC MAC as Ethernet source and as advertised link-layer address, addressed to the loop's own target, and is sent only while that MAC is in the hunt list, the handler is not closed and a router has been learned (per-send predicate, loop invariants over the router snapshot); ProcessPacket keeps the router table well formed (non-nil entries with IPv6 addresses); AddrList.index equals a recursive reference search",
